@@ -969,7 +969,8 @@ Section CopyUser.
 
   Lemma cu_nodupX : NoDup (map fst X).
   Proof.
-    unfold X, usub, t_sub. rewrite !map_fst_filter.
+    unfold X, usub, t_sub. rewrite (map_fst_filter (fun k => negb (has_reserved k))).
+    rewrite (map_fst_filter (fun k => is_prefix s k)).
     repeat apply NoDup_filter. apply (sr_nodup _ _ _ _ S).
   Qed.
 
@@ -1030,3 +1031,296 @@ Section CopyUser.
       unfold is_obj_path. now rewrite (classify_user _ (cu_user _ U)).
   Qed.
 End CopyUser.
+
+Lemma filter_map_gen {X Y} (f : Y -> bool) (g : X -> Y) l :
+  filter f (map g l) = map g (filter (fun x => f (g x)) l).
+Proof. induction l as [|x l IH]; simpl; auto. destruct (f (g x)); simpl; now rewrite IH. Qed.
+
+Lemma skipn_app_exact {X} (a b : list X) : skipn (List.length a) (a ++ b) = b.
+Proof. induction a; simpl; auto. Qed.
+
+Lemma has_reserved_under s k :
+  has_reserved s = false -> is_prefix s k = true ->
+  has_reserved (skipn (List.length s) k) = has_reserved k.
+Proof.
+  intros Us P. rewrite (is_prefix_split s k P) at 2. now rewrite has_reserved_app, Us.
+Qed.
+
+Lemma strip_copy_eq T s d :
+  has_reserved s = false ->
+  (forall k, is_prefix d k = true -> t_has T k = false) ->
+  strip_meta_below (T ++ t_rename s d (t_sub s T)) d = T ++ tmap (rebase s d) (usub T s).
+Proof.
+  intros Us Free. unfold strip_meta_below. rewrite filter_app. f_equal.
+  - apply filter_all. intros e I. apply in_t_has in I. destruct (is_prefix d (fst e)) eqn:P; auto.
+    rewrite Free in I; auto. discriminate.
+  - rewrite t_rename_tmap. unfold tmap at 1. rewrite filter_map_gen. unfold usub, tmap. f_equal.
+    apply filter_ext_in. intros e I. unfold t_sub in I. apply filter_In in I as [_ P]. simpl.
+    rewrite (rebase_prefix s d _ P), (rebase_under s d _ P), skipn_app_exact. simpl.
+    now rewrite has_reserved_under.
+Qed.
+
+Lemma sub_data_usub E T n pr s :
+  SyncRaw E T n pr -> has_reserved s = false -> is_data (t_get T s) = true ->
+  t_sub s T = usub T s.
+Proof.
+  intros S Us D. unfold usub. symmetry. apply filter_all. intros e I.
+  unfold t_sub in I. apply filter_In in I as [I P]. apply negb_true_iff. destruct e as [k o].
+  simpl in *. destruct (list_eq_dec string_dec k s) as [->|Nk]; auto.
+  apply in_t_has in I. simpl in I. rewrite (below_data_absent E T n pr s k S D P Nk) in I. discriminate.
+Qed.
+
+(** The part of [copy] that is proved: everything except the re-uuid of copied objects. *)
+Lemma copy_user_raw E T n pr s d :
+  SyncRaw E T n pr -> has_reserved s = false -> has_reserved d = false -> s <> [] -> d <> [] ->
+  t_has T s = true -> (forall k, is_prefix d k = true -> t_has T k = false) ->
+  is_group (t_get T (parent d)) = true ->
+  SyncRaw E (T ++ tmap (rebase s d) (usub T s)) n pr.
+Proof.
+  intros S Us Ud NEs NEd Hs Free Gpd. apply (grow_frame E T); auto.
+  now apply (copy_user_grow E T n pr s d).
+Qed.
+
+(** ** [c_copy], common part: the state after the raw copy *)
+
+Section CopySetup.
+  Variables (E : env) (st : cstate) (o : obj) (s d : path) (T1 : tree).
+  Hypothesis S : SyncRaw E (raw st) (next_id st) (prov st).
+  Hypothesis Us : has_reserved s = false.
+  Hypothesis Ud : has_reserved d = false.
+  Hypothesis Go : t_get (raw st) s = Some o.
+  Hypothesis UC : u_copy (raw st) s d = Some T1.
+
+  Lemma copy_setup :
+    exists T0, SyncRaw E T0 (next_id st) (prov st) /\ s <> [] /\ d <> [] /\
+               is_prefix s d = false /\ t_get T0 s = Some o /\
+               (forall k, is_prefix d k = true -> t_has T0 k = false) /\
+               is_group (t_get T0 (parent d)) = true /\
+               T1 = T0 ++ t_rename s d (t_sub s T0) /\ Grow (raw st) T0.
+  Proof.
+    unfold u_copy in UC. destruct s as [|a s']; [discriminate|]. destruct d as [|b d']; [discriminate|].
+    set (s0 := a :: s') in *. set (d0 := b :: d') in *.
+    destruct (is_prefix s0 d0 || negb (t_has (raw st) s0) || t_has (raw st) d0) eqn:C; [discriminate|].
+    apply orb_false_iff in C as [C Hd]. apply orb_false_iff in C as [Psd _].
+    destruct (t_mkgroups (raw st) (parent d0)) as [T0|] eqn:MK; [|discriminate].
+    inversion UC; subst T1. unfold t_mkgroups in MK.
+    assert (Upd : has_reserved (parent d0) = false).
+    { apply (user_prefix (parent d0) d0); auto. apply is_prefix_parent. discriminate. }
+    destruct (mkgroups_grow _ _ _ _ MK (sr_root _ _ _ _ S) Upd) as [G Gpd].
+    change ([] ++ parent d0) with (parent d0) in Gpd.
+    exists T0. split; [now apply (grow_frame E (raw st))|]. split; [discriminate|].
+    split; [discriminate|]. split; [exact Psd|]. split; [now apply (gr_mono _ _ G)|].
+    split; [apply (free_after_mkgroups E _ _ _ d0 T0 S); auto; discriminate|].
+    split; [exact Gpd|]. split; auto.
+  Qed.
+End CopySetup.
+
+Lemma copy_raw_without_meta E st o s d :
+  SyncRaw E (raw st) (next_id st) (prov st) -> has_reserved s = false -> has_reserved d = false ->
+  t_get (raw st) s = Some o ->
+  SyncRaw E (raw (fst (c_copy st o s d true))) (next_id (fst (c_copy st o s d true)))
+          (prov (fst (c_copy st o s d true))).
+Proof.
+  intros S Us Ud Go. unfold c_copy. destruct (u_copy (raw st) s d) as [T1|] eqn:UC; [|exact S].
+  destruct (copy_setup E st o s d T1 S Us Ud Go UC) as (T0 & S0 & NEs & NEd & Psd & G0 & Free & Gpd & -> & _).
+  assert (Hs : t_has T0 s = true) by (unfold t_has; now rewrite G0).
+  unfold c_copy_fixups. destruct o as [[|v] at0]; cbn [okind fst raw next_id prov set_raw].
+  - rewrite strip_copy_eq; auto. now apply copy_user_raw.
+  - rewrite t_rename_tmap, (sub_data_usub E T0 _ _ s S0 Us) by now rewrite G0.
+    now apply copy_user_raw.
+Qed.
+
+(** A dataset without metadata copied with [without_meta = false]: the data is copied, then
+    the sidecar copy raises ([RFailLate]); the TOC and the metadata are untouched. *)
+Lemma copy_raw_late E st o s d :
+  SyncRaw E (raw st) (next_id st) (prov st) -> has_reserved s = false -> has_reserved d = false ->
+  t_get (raw st) s = Some o -> snd (c_copy st o s d false) = RFailLate ->
+  SyncRaw E (raw (fst (c_copy st o s d false))) (next_id (fst (c_copy st o s d false)))
+          (prov (fst (c_copy st o s d false))).
+Proof.
+  intros S Us Ud Go. unfold c_copy. destruct (u_copy (raw st) s d) as [T1|] eqn:UC; [|simpl; discriminate].
+  destruct (copy_setup E st o s d T1 S Us Ud Go UC) as (T0 & S0 & NEs & NEd & Psd & G0 & Free & Gpd & -> & _).
+  assert (Hs : t_has T0 s = true) by (unfold t_has; now rewrite G0).
+  unfold c_copy_fixups. destruct o as [[|v] at0]; cbn [okind].
+  - destruct (reuuid_region _ _ _ _). discriminate.
+  - destruct (t_has _ (meta_dir_of s true)).
+    + destruct (reuuid_region _ _ _ _). discriminate.
+    + intros _. cbn [fst raw next_id prov set_raw].
+      rewrite t_rename_tmap, (sub_data_usub E T0 _ _ s S0 Us) by now rewrite G0.
+      now apply copy_user_raw.
+Qed.
+
+(** ** The step theorem with move and copy-without-metadata included *)
+
+Lemma user_of_res p : has_reserved p = false -> user_path p = true.
+Proof. intros H. unfold user_path. now rewrite H. Qed.
+Lemma res_of_user p : user_path p = true -> has_reserved p = false.
+Proof. unfold user_path. intros H. now apply negb_true_iff in H. Qed.
+
+(** Source object, source and destination of a copy, when the call gets that far. *)
+Definition copy_args (st : cstate) (co : cop) : option (obj * path * path * bool) :=
+  match co with
+  | CCopy cwd s d wm =>
+      if guard cwd then None else
+      match enter (raw st) cwd with None => None | Some c =>
+      if guard s then None else
+      match t_get (raw st) (resolve c s) with None => None | Some o =>
+      if guard d then None else Some (o, resolve c s, resolve c d, wm) end end
+  | CCopyInto cwd s dgrp name wm =>
+      if guard cwd then None else
+      match enter (raw st) cwd with None => None | Some c =>
+      if guard dgrp then None else
+      match enter (raw st) dgrp with None => None | Some dg =>
+      if guard s then None else
+      match t_get (raw st) (resolve c s) with None => None | Some o =>
+      if name_guard name then None
+      else Some (o, resolve c s, into_dest dg (resolve c s) name, wm) end end end
+  | _ => None
+  end.
+
+Lemma copy_step_cases st co :
+  match copy_args st co with
+  | Some (o, s, d, wm) =>
+      c_step st co = c_copy st o s d wm /\ has_reserved s = false /\ has_reserved d = false /\
+      t_get (raw st) s = Some o
+  | None => match co with
+            | CCopy _ _ _ _ | CCopyInto _ _ _ _ _ => fst (c_step st co) = st
+            | _ => True
+            end
+  end.
+Proof.
+  destruct co; simpl; auto.
+  - unfold c_step, c_step_gen. destruct (guard cwd) eqn:Gc; auto.
+    destruct (enter (raw st) cwd) as [c|] eqn:En; auto. destruct (guard s) eqn:Gs; auto.
+    destruct (t_get (raw st) (resolve c s)) as [o|] eqn:Go; auto. destruct (guard d) eqn:Gd; auto.
+    pose proof (enter_user _ cwd c Gc En) as Uc. repeat split; auto using resolve_user.
+  - unfold c_step, c_step_gen. destruct (guard cwd) eqn:Gc; auto.
+    destruct (enter (raw st) cwd) as [c|] eqn:En; auto. destruct (guard dgrp) eqn:Gg; auto.
+    destruct (enter (raw st) dgrp) as [dg|] eqn:Eg; auto. destruct (guard s) eqn:Gs; auto.
+    destruct (t_get (raw st) (resolve c s)) as [o|] eqn:Go; auto.
+    destruct (name_guard name) eqn:Gn; auto.
+    pose proof (enter_user _ cwd c Gc En) as Uc. pose proof (enter_user _ dgrp dg Gg Eg) as Ug.
+    pose proof (resolve_user c s Uc Gs) as Us. repeat split; auto.
+    apply res_of_user, into_dest_user; auto using user_of_res.
+Qed.
+
+(** The only case left as a premise: a copy WITH metadata ([without_meta = false]) that
+    succeeds ([ROk]). *)
+Definition copies_meta (o : sop) : bool :=
+  match o with
+  | SOp (CCopy _ _ _ false) | SOp (CCopyInto _ _ _ _ false) => true
+  | _ => false
+  end.
+
+Lemma res_eq_ok (r : res) : r = ROk \/ r <> ROk.
+Proof. destruct r; auto; right; discriminate. Qed.
+
+Lemma raw_step_copy E st co :
+  Sync E st ->
+  match co with CCopy _ _ _ _ | CCopyInto _ _ _ _ _ => True | _ => False end ->
+  (copies_meta (SOp co) = true -> snd (c_step (cs st) co) <> ROk) ->
+  RawStep E st co.
+Proof.
+  intros S Hc Hm. pose proof (raw_of_sync E st S) as R.
+  pose proof (copy_step_cases (cs st) co) as C.
+  destruct (copy_args (cs st) co) as [[[[o s] d] wm]|] eqn:A.
+  - destruct C as (Ec & Us & Ud & Go). unfold RawStep. rewrite Ec in *.
+    destruct wm.
+    + now apply copy_raw_without_meta.
+    + assert (CM : copies_meta (SOp co) = true).
+      { destruct co; try contradiction; simpl in A;
+          repeat match type of A with
+                 | (if ?b then _ else _) = _ => destruct b; [discriminate|]
+                 | match ?x with Some _ => _ | None => _ end = _ => destruct x; [|discriminate]
+                 end; inversion A; subst; reflexivity. }
+      specialize (Hm CM). destruct (snd (c_copy (cs st) o s d false)) eqn:Rs.
+      * contradiction.
+      * rewrite c_copy_ref; auto. now rewrite Rs.
+      * rewrite c_copy_ref; auto. now rewrite Rs.
+      * now apply copy_raw_late.
+  - destruct co; try contradiction; apply raw_step_same; auto.
+Qed.
+
+Lemma sync_step_general E st o :
+  env_ok E = true -> Sync E st ->
+  (copies_meta o = true -> snd (s_step E st o) = ROk ->
+   match o with SOp co => RawStep E st co | _ => True end) ->
+  Sync E (fst (s_step E st o)).
+Proof.
+  intros EO S H. destruct (is_heavy o) eqn:Hv; [|now apply sync_step_light].
+  destruct o as [co| | |]; try discriminate.
+  destruct co; try discriminate.
+  - (* move *) apply sync_step_heavy; auto. now apply raw_step_move.
+  - (* copy *)
+    unfold s_step, s_step_gen in *. destruct (ro st && _) eqn:RO; [exact S|].
+    assert (R : RawStep E st (CCopy cwd s d without_meta)).
+    { destruct (c_step (cs st) (CCopy cwd s d without_meta)) as [c' rs] eqn:Ec.
+      destruct (res_eq_ok rs) as [->|Nok].
+      - destruct without_meta.
+        + apply raw_step_copy; auto. simpl. discriminate.
+        + apply H; auto.
+      - apply raw_step_copy; auto. intros _. now rewrite Ec. }
+    unfold RawStep in R. destruct (c_step (cs st) _) as [c' rs]. simpl in *. now apply sync_track.
+  - unfold s_step, s_step_gen in *. destruct (ro st && _) eqn:RO; [exact S|].
+    assert (R : RawStep E st (CCopyInto cwd s dgrp name without_meta)).
+    { destruct (c_step (cs st) (CCopyInto cwd s dgrp name without_meta)) as [c' rs] eqn:Ec.
+      destruct (res_eq_ok rs) as [->|Nok].
+      - destruct without_meta.
+        + apply raw_step_copy; auto. simpl. discriminate.
+        + apply H; auto.
+      - apply raw_step_copy; auto. intros _. now rewrite Ec. }
+    unfold RawStep in R. destruct (c_step (cs st) _) as [c' rs]. simpl in *. now apply sync_track.
+Qed.
+
+(** ** Histories *)
+
+Fixpoint meta_copies_ok (E : env) (st : sstate) (ops : list sop) : Prop :=
+  match ops with
+  | [] => True
+  | o :: r =>
+      (copies_meta o = true -> snd (s_step E st o) = ROk ->
+       match o with SOp co => RawStep E st co | _ => True end) /\
+      meta_copies_ok E (fst (s_step E st o)) r
+  end.
+
+Lemma sync_run_general E : forall ops st,
+  env_ok E = true -> Sync E st -> meta_copies_ok E st ops -> Sync E (s_run E st ops).
+Proof.
+  induction ops as [|o ops IH]; intros st EO S H; simpl; auto.
+  destruct H as [H1 H2]. apply IH; auto. now apply sync_step_general.
+Qed.
+
+Lemma no_meta_copies_ok E : forall ops st,
+  forallb (fun o => negb (copies_meta o)) ops = true -> meta_copies_ok E st ops.
+Proof.
+  induction ops as [|o ops IH]; intros st H; simpl; auto. simpl in H.
+  apply andb_prop in H as [H1 H2]. apply negb_true_iff in H1. split; auto. intros X. congruence.
+Qed.
+
+Lemma sync_step_no_meta_copy E st o :
+  env_ok E = true -> Sync E st -> copies_meta o = false -> Sync E (fst (s_step E st o)).
+Proof. intros EO S H. apply sync_step_general; auto. intros X. congruence. Qed.
+
+Lemma sync_run_no_meta_copy E ops :
+  env_ok E = true -> forallb (fun o => negb (copies_meta o)) ops = true ->
+  Sync E (s_run E init_ss ops).
+Proof. intros EO H. apply sync_run_general; auto. apply sync_init. now apply no_meta_copies_ok. Qed.
+
+(** A copy with metadata that does not succeed (refused, or a dataset without metadata:
+    [RFailLate]) needs no premise either. *)
+Lemma sync_step_meta_copy_not_ok E st o :
+  env_ok E = true -> Sync E st -> snd (s_step E st o) <> ROk -> Sync E (fst (s_step E st o)).
+Proof. intros EO S H. apply sync_step_general; auto. intros _ X. contradiction. Qed.
+
+(** Witness: move, copy without metadata, delete, reopen -- no premise. *)
+Definition ops_move_copy : list sop :=
+  [SOp (CCreateGroup "/" "g"); SOp (CSetItem "/" "g/x" "1");
+   SAttach "/g/x" "c06.bb__0.1.0" "0" true; SAttach "/g" "c06.aa__0.1.0" "1" true;
+   SOp (CMove "/" "g/x" "z"); SOp (CCopy "/" "g" "k" true); SOp (CMove "/" "g" "h/i");
+   SOp (CCopy "/" "z" "z2" true); SOp (CCopyInto "/" "z" "/k" (Some "zz") true);
+   SOp (CDelete "/" "h"); SReopen false].
+
+Lemma example_move_copy :
+  Sync E0 (s_run E0 init_ss ops_move_copy) /\
+  t_has (raw (cs (s_run E0 init_ss ops_move_copy))) (link_path "c06.bb__0.1.0" "u0") = true.
+Proof. split; [apply sync_run_no_meta_copy; reflexivity|vm_compute; reflexivity]. Qed.
